@@ -212,3 +212,25 @@ Theorem C17_valid_parse_frames_round_trip : forall cfg d p dictID x sbs ebs z re
   exists t, decode_frame cfg d (enc_frame p dictID ebs ++ rest) = Ok (x, t, rest).
 Proof. exact valid_parses_round_trip. Qed.
 Print Assumptions C17_valid_parse_frames_round_trip.
+
+(* ---- composition with the codec model: the blocks computed by the model of ZSTD_compressSequences (delimiter-free mode) from a
+        valid parse of x, handed to the modelled entropy stage (to_sblocks: tiny blocks and blocks the stage declines are stored raw;
+        the others get raw literals + predefined FSE tables), assemble into a frame the reference decoder decodes to x.  The remaining
+        hypothesis pblocks_run = Some ... is the format's number-level checks (window rule, ranges, block sizes) ---- *)
+From ZV.Seq Require Import SeqRoundTrip.
+Theorem C17_compress_sequences_round_trip : forall cfg0 dcfg d p dictID x S rep dec blks ers bsMax ebs z rest,
+  let dict := dict_content d in
+  let full := dict ++ x in
+  let win := frame_window p (lenN x) in
+  let blockMax := N.min (N.min win BLOCK_MAX) (c_block_max dcfg) in
+  (* a valid parse of x, accepted and cut into blocks by the model of ZSTD_compressSequences (no explicit delimiters) *)
+  lenN x < M32 -> 1 <= g_minMatch cfg0 -> g_minMatch cfg0 <= bsMax ->
+  valid_parse_global dict x S ->
+  compress_sequences cfg0 false ers bsMax (lenN x) S rep dec = Done blks ->
+  offsets_fit false S -> rep_ok rep -> rep = e_rep (dict_entropy d) -> blks <> [] ->
+  (* the number-level checks of the format pass for the blocks handed to the entropy stage *)
+  pblocks_run (c_strict_window dcfg) win blockMax (z_init d) (to_pblocks full (lenN dict) (to_sblocks dec blks)) = Some (ebs, z) ->
+  params_ok p (lenN x) dictID -> c_magicless dcfg = fp_magicless p -> win <= c_window_max dcfg -> dict_ok d p dictID ->
+  exists t, decode_frame dcfg d (enc_frame p dictID ebs ++ rest) = Ok (x, t, rest).
+Proof. exact compress_sequences_round_trip. Qed.
+Print Assumptions C17_compress_sequences_round_trip.
